@@ -1,11 +1,15 @@
 #!/bin/bash
 # usage: tools/confirm_mutant.sh <worktree>   confirms: demo passes without the change, fails with it, test-suite passes with it
+# (no git stash: the stash is shared between worktrees)
 wt=$1
 cd $wt || exit 2
 demo=$(ls demo*.py | head -1)
-git stash -q
+p=$(mktemp /tmp/confirm-XXXX.diff)
+git diff > $p
+git checkout -- .
 PYTHONPATH=$wt/src /venv/bin/python $demo >/dev/null 2>&1; a=$?
-git stash pop -q
+git apply $p
 PYTHONPATH=$wt/src /venv/bin/python $demo >/dev/null 2>&1; b=$?
 t=$(PYTHONPATH=$wt/src /venv/bin/python -m pytest -q -p no:cacheprovider --timeout=900 tests 2>&1 | tail -1)
+rm -f $p
 echo "$wt demo_without_change_rc=$a demo_with_change_rc=$b tests_with_change: $t"
